@@ -201,7 +201,11 @@ func certArgsOK(caller *ssa.Function, call ssa.CallInstruction) bool {
 }
 
 // acceptingReturns lists the returns of fn that may report acceptance.
-func acceptingReturns(fn *ssa.Function) []*ssa.Return {
+func acceptingReturns(fn *ssa.Function) []*ssa.Return { return acceptingReturnsMode(fn, false) }
+
+// acceptingReturnsMode: with errMode the caller observes only the error of a
+// (bool, error) function: every return that may carry a nil error accepts.
+func acceptingReturnsMode(fn *ssa.Function, errMode bool) []*ssa.Return {
 	var out []*ssa.Return
 	rs := fn.Signature.Results()
 	for _, r := range ir.Returns(fn) {
@@ -209,6 +213,11 @@ func acceptingReturns(fn *ssa.Function) []*ssa.Return {
 			continue
 		}
 		switch {
+		case errMode && rs.Len() > 1 && isErrorType(rs.At(rs.Len()-1).Type()):
+			if retClass(fn, r) == "fail" {
+				continue
+			}
+			out = append(out, r)
 		case rs.Len() > 0 && isBoolType(rs.At(0).Type()):
 			if k, ok := r.Results[0].(*ssa.Const); ok && k.Value != nil && !constant.BoolVal(k.Value) {
 				continue
@@ -278,15 +287,22 @@ func callOf(v ssa.Value) *ssa.Call {
 // observation: does edge ce observe the accepting result of a repo call?
 // Returns the call if so.
 func (e *acceptEngine) observation(fn *ssa.Function, ce ir.CondEdge) *ssa.Call {
+	call, _ := e.observe(fn, ce)
+	return call
+}
+
+// observe also reports whether the acceptance was observed through the error
+// of a (bool, error) callee (errMode).
+func (e *acceptEngine) observe(fn *ssa.Function, ce ir.CondEdge) (*ssa.Call, bool) {
 	cond, truth := condOf(fn, ce)
 	// bool result observed true
 	if core, neg := ir.Peel(cond); isBoolType(core.Type()) && truth != neg {
 		if call := callOf(core); call != nil {
 			if ex, isEx := core.(*ssa.Extract); isEx && ex.Index != 0 {
-				return nil
+				return nil, false
 			}
 			if callee := ir.Callee(call); callee != nil && e.c.P.InLib(callee) {
-				return call
+				return call, false
 			}
 		}
 	}
@@ -294,14 +310,14 @@ func (e *acceptEngine) observation(fn *ssa.Function, ce ir.CondEdge) *ssa.Call {
 	if v, nilWhenTrue, ok := ir.NilCheck(cond); ok && nilable(v.Type()) && truth != nilWhenTrue {
 		if call, isCall := v.(*ssa.Call); isCall {
 			if callee := ir.Callee(call); callee != nil && e.c.P.InLib(callee) && callee.Signature.Results().Len() == 1 {
-				return call
+				return call, false
 			}
 		}
 	}
 	// error-only result observed nil
 	if v, isNil := errIsNil(cond, truth); v != nil {
 		if !isNil {
-			return nil
+			return nil, false
 		}
 		for _, oc := range errorOrigins(v, map[ssa.Value]bool{}) {
 			callee := ir.Callee(oc)
@@ -309,13 +325,14 @@ func (e *acceptEngine) observation(fn *ssa.Function, ce ir.CondEdge) *ssa.Call {
 				continue
 			}
 			rs := callee.Signature.Results()
-			// error-only, or (value, error) with a non-boolean value: nil error = accepted
-			if rs.Len() >= 1 && isErrorType(rs.At(rs.Len()-1).Type()) && !(rs.Len() > 1 && isBoolType(rs.At(0).Type())) {
-				return oc
+			// error-only, or (value, error): nil error = accepted; for a (bool, error)
+			// callee the facts are then required at every return with a nil error
+			if rs.Len() >= 1 && isErrorType(rs.At(rs.Len()-1).Type()) {
+				return oc, rs.Len() > 1 && isBoolType(rs.At(0).Type())
 			}
 		}
 	}
-	return nil
+	return nil, false
 }
 
 // condOf: the branch condition of a conditional edge (or the bare condition
@@ -342,7 +359,7 @@ func (e *acceptEngine) valueEstablishes(fn *ssa.Function, v ssa.Value, f *fact, 
 	if f.direct(e.c, fn, ir.CondEdge{Cond: core, Truth: !neg}) {
 		return true
 	}
-	if call := e.observation(fn, ir.CondEdge{Cond: core, Truth: !neg}); call != nil && certArgsOK(fn, call) && e.establishes(ir.Callee(call), f) {
+	if call, em := e.observe(fn, ir.CondEdge{Cond: core, Truth: !neg}); call != nil && certArgsOK(fn, call) && e.establishesMode(ir.Callee(call), f, em) {
 		return true
 	}
 	if ph, ok := core.(*ssa.Phi); ok && !neg {
@@ -375,8 +392,8 @@ func (e *acceptEngine) evidenceEdges(fn *ssa.Function, f *fact) []ir.Edge {
 			out = append(out, ce.Edge)
 			continue
 		}
-		if call := e.observation(fn, ce); call != nil && certArgsOK(fn, call) {
-			if e.establishes(ir.Callee(call), f) {
+		if call, em := e.observe(fn, ce); call != nil && certArgsOK(fn, call) {
+			if e.establishesMode(ir.Callee(call), f, em) {
 				out = append(out, ce.Edge)
 				continue
 			}
@@ -415,7 +432,7 @@ func (e *acceptEngine) holdsAt(fn *ssa.Function, r *ssa.Return, f *fact) (bool, 
 			ev := r.Results[n-1]
 			if f.direct(e.c, fn, ir.CondEdge{Cond: ev, Truth: true}) {
 				errTail = true
-			} else if call := e.observation(fn, ir.CondEdge{Cond: ev, Truth: true}); call != nil && certArgsOK(fn, call) && e.establishes(ir.Callee(call), f) {
+			} else if call, em := e.observe(fn, ir.CondEdge{Cond: ev, Truth: true}); call != nil && certArgsOK(fn, call) && e.establishesMode(ir.Callee(call), f, em) {
 				errTail = true
 			}
 		}
@@ -427,9 +444,20 @@ func (e *acceptEngine) holdsAt(fn *ssa.Function, r *ssa.Return, f *fact) (bool, 
 	for _, ed := range e.evidenceEdges(fn, f) {
 		cut[ed] = true
 	}
+	// evidence found inside a loop belongs to one iteration: a later iteration
+	// must find it again, so the search also starts at the header of every loop
+	// that contains an evidence edge (evidence before a loop holds throughout it)
 	starts := []*ssa.BasicBlock{fn.Blocks[0]}
 	for _, l := range naturalLoops(fn) {
-		starts = append(starts, l.header)
+		inside := false
+		for ed := range cut {
+			if l.body[ed.From] {
+				inside = true
+			}
+		}
+		if inside {
+			starts = append(starts, l.header)
+		}
 	}
 	reachable := func(target *ssa.BasicBlock) (bool, string) {
 		for _, st := range starts {
@@ -487,10 +515,17 @@ func (e *acceptEngine) holdsAt(fn *ssa.Function, r *ssa.Return, f *fact) (bool, 
 
 // establishes: every accepting return of fn carries fact f.
 func (e *acceptEngine) establishes(fn *ssa.Function, f *fact) bool {
+	return e.establishesMode(fn, f, false)
+}
+
+func (e *acceptEngine) establishesMode(fn *ssa.Function, f *fact, errMode bool) bool {
 	if fn == nil || fn.Blocks == nil {
 		return false
 	}
 	key := name(fn) + "|" + f.id
+	if errMode {
+		key += "|err"
+	}
 	switch e.memo[key] {
 	case 1:
 		return true
@@ -499,7 +534,7 @@ func (e *acceptEngine) establishes(fn *ssa.Function, f *fact) bool {
 	}
 	e.memo[key] = 3
 	ok := true
-	acc := acceptingReturns(fn)
+	acc := acceptingReturnsMode(fn, errMode)
 	if len(acc) == 0 {
 		ok = false // a function that never accepts establishes nothing useful
 	}
